@@ -9,7 +9,7 @@ ASSUMPTIONS = ["C02 is conditional on C01 (each recorded action is invertible wh
 NOT_UNDER_CONTRACT = []
 
 
-def bounded(tier, seed):
+def _bounded(tier, seed):
     from pyvc.native_bridge import bounded_paint
     return [bounded_paint(tier, "C02", "a stroke is exactly one timeline step however many nodes it adds, shrinks or removes; undo/redo step along the timeline")]
 
@@ -24,3 +24,8 @@ def units(tier):
 def witness(label, failure, seed):
     from pyvc.native_bridge import tracks_witness
     return tracks_witness("C02", label, failure, seed)
+
+
+def bounded(tier, seed):
+    from ._common import model_checks
+    return _bounded(tier, seed) + model_checks(tier, "networkx", shape=True, seed=seed)
